@@ -98,6 +98,98 @@ def c08(run):
                        "code) must be rejected; non-trivial = must-be-rejected inputs")
 
 
+# ------------------------------------------------------------------ expressions: C01
+def expr_cfg(family, emit=True, dev="DevPIntended"):
+    return """CONSTANTS
+  DevP <- %s
+  Family = "%s"
+  Emit_ = %s
+SPECIFICATION Spec
+INVARIANTS InvRoundTrip InvParses Gen
+CHECK_DEADLOCK FALSE
+""" % (dev, family, "TRUE" if emit else "FALSE")
+
+
+@check("C01")
+def c01(run):
+    fams = (["pairs", "flat2", "mixed", "members", "faults", "assign"] if run.tier == "quick"
+            else ["pairsall", "flat2", "flat3", "mixed", "members", "faults", "assign", "triples"])
+    sts = run.tlc_many([dict(module="MC_Expr", cfg=expr_cfg(fam), name="MC_Expr_" + fam, timeout=1500, workers=2)
+                        for fam in fams])
+    for fam, st in zip(fams, sts):
+        path, n = run.records(st)
+        run.replay("render", path, name="render-" + fam)
+        run.add_samples(path, 1)
+    return vp.finish(run, "model_checking",
+                     "expression trees (every pair, and in the thorough tier every triple, of the 11 binary operators "
+                     "in every shape; unary, postfix, ternary, index forms mixed with each operator) and flat operator "
+                     "sequences grouped by the specification's Pratt parser (TLC checks RoundTrip on every tree), each "
+                     "with binding sets chosen to separate groupings and in several layouts; replayed through "
+                     "EvaluateString; non-trivial = the model fixes the output or demands an error",
+                     exhaustive=True,
+                     assumptions=["int64 arithmetic modelled on small values and the +-1 neighbourhood of the int64 "
+                                  "bounds; floats on short dyadic rationals only (DESIGN.md section 9)"])
+
+
+# ------------------------------------------------------------------ machine E (evaluator): C02 C03 C04
+EVAL_INV = "ScopeBalance TypeStable LoopReserved LoopMeta Gen"
+
+
+def eval_cfg(family, emit=True):
+    return """CONSTANTS
+  DevP <- DevPIntended
+  Family = "%s"
+  Emit_ = %s
+SPECIFICATION Spec
+INVARIANTS %s
+PROPERTIES OutMonotone Terminates
+CHECK_DEADLOCK FALSE
+""" % (family, "TRUE" if emit else "FALSE", EVAL_INV)
+
+
+def eval_check(run, fams, rule, assumptions=None):
+    sts = run.tlc_many([dict(module="MC_Eval", cfg=eval_cfg(fam), name="MC_Eval_" + fam, timeout=3000, workers=2)
+                        for fam in fams])
+    for fam, st in zip(fams, sts):
+        path, n = run.records(st)
+        run.replay("render", path, name="render-" + fam)
+        run.add_samples(path, 1)
+    return vp.finish(run, "model_checking", rule, exhaustive=True,
+                     assumptions=(assumptions or []) + ["TLC 1.8.0; expected outputs come from spec/TwEval.tla, "
+                                                        "written from the property statements"])
+
+
+@check("C02")
+def c02(run):
+    fams = ["c02chains", "c02truth"] if run.tier == "quick" else ["c02chains", "c02chains3", "c02truth"]
+    return eval_check(run, fams,
+                      "every @if chain shape (0..2 @elseif, with/without @else; thorough: 3 branches and all nesting "
+                      "contexts) x every vector of conditions over truthy / falsy / raising expressions of every value "
+                      "kind (literal and data-supplied), at several nesting positions; the same values through ?:, "
+                      "@breakIf, @continueIf; TLC runs each program on the small-step model of machine E and the "
+                      "harness replays it through EvaluateString; non-trivial = model fixes output or demands an error")
+
+
+@check("C03")
+def c03(run):
+    return eval_check(run, ["c03each", "c03for", "c03nested"],
+                      "@each over arrays of length 0..4 (literal and data) printing v and loop.index/iter/first/last, "
+                      "with each of 8 jump directives at every position of the body, bare and under nested @if/@else; "
+                      "@for with 6 init/condition/step heads; every combination of loop kinds nested with jumps in "
+                      "the inner loop and in its @else body; non-array headers of every kind; TLC checks LoopMeta, "
+                      "ScopeBalance, OutMonotone on every state")
+
+
+@check("C04")
+def c04(run):
+    fams = ["c04scopes", "c04loop"] if run.tier == "quick" else ["c04scopesall", "c04loop"]
+    return eval_check(run, fams,
+                      "assignments and reads of names x, y with values of six types before / inside / after each of 9 "
+                      "block skeletons (flat, if, else, each, for, each-in-if, loops binding x itself) x 4 data maps "
+                      "pre-binding the names; 'loop' as assignment target and as data key; reads after the construct "
+                      "of names bound inside it; TLC checks TypeStable, LoopReserved, ScopeBalance on every state")
+
+
 def replay(path):
     rec = json.load(open(path))
     prop = rec["property"]
